@@ -19,9 +19,9 @@ CLAIMS = {
    note='Trusted: Coq kernel; translator + CArith.v; simmpi. Exactly-once delivery of the update messages is C01/C02.',
    technique='Rocq proof over a translator-generated model; exhaustive small-domain correspondence', ref='DESIGN.md §5 C13'),
  'C14': dict(engine=T_ENGINE,
-   text='Coq theorems: the target-rank loop of bag::rebalance (regenerated from bag.ipp, loop included) sends each position to its block-partition owner, is total for every total count, and therefore leaves exactly blk_size items on every rank for every initial placement; checked against real rebalances (4 placements x totals x sizes) under a simulated MPI.',
-   note='Trusted: Coq kernel; translator + CArith.v; simmpi. Which concrete items move is not modelled (only counts and the multiset, which the harness checks).',
-   technique='Rocq proof over a translator-generated model (with loop); exhaustive small-domain correspondence', ref='DESIGN.md §5 C14'),
+   text='Coq theorems: (1) the target-rank loop of bag::rebalance (regenerated from bag.ipp, loop included) sends each position to its block-partition owner, is total for every total count, and therefore leaves exactly blk_size items on every rank for every initial placement; (2) Bag.v: two bags under all insert overloads, rebalance shipments, global shuffle to arbitrary destinations, local shuffle, clear and swap refine a pair of multisets for every history (brun_refines); (3) in every history of inserts, erases, clears and swaps on two tagged bags the tag returned by an insert is fresh, carries the issuing rank and addresses exactly that item (tagged_insert_unique, invariant TInv). Tie: real rebalances (4 placements x totals x sizes) compared with the generated loop inside Coq; generated histories on two real bags and two real tagged bags (inserts issued directly after swap / clear, fewer items than ranks, unequal per-rank counters before swap) compared with Bag.v evaluated by vm_compute: returned tags, per-rank and global contents, visits, sizes, gathers.',
+   note='Trusted: Coq kernel; translator + CArith.v; simmpi; Bag.v is hand-written and tied by the differential histories. The order of items inside a rank and the destinations drawn by global_shuffle are not compared (multisets are).',
+   technique='Rocq proof over a translator-generated model (with loop) + Rocq refinement/invariant proofs on a hand-written executable model tied by differential histories', ref='DESIGN.md §5 C14'),
 }
 if os.path.exists(os.path.join(V, 'tools', 'claims_extra.json')):
     CLAIMS.update(json.load(open(os.path.join(V, 'tools', 'claims_extra.json'))))
